@@ -104,7 +104,11 @@ pub fn inject(doc: &mut ADoc, defect: usize, sel: &mut Tape, tail: &mut Vec<u8>,
     let kind = DEFECTS[defect];
     match kind {
         "trailing-data" => {
-            const T: &[&[u8]] = &[b"x", b"<X/>", b"<AUTOSAR/>", b"&amp;", b"</AUTOSAR>", b"<AR-PACKAGES/>"];
+            // also behind a comment, a processing instruction or white space (the end-of-input check must look past them)
+            const T: &[&[u8]] = &[
+                b"x", b"<X/>", b"<AUTOSAR/>", b"&amp;", b"</AUTOSAR>", b"<AR-PACKAGES/>", b"<!--c--><X/>", b"<!-- c -->x", b"\n<!--c-->\n<AR-PACKAGES></AR-PACKAGES>", b"<!--a--><!--b--></AUTOSAR>", b"  \n x",
+                b"<!--c-->\n<AUTOSAR></AUTOSAR>", b"\n\n<!--c-->&amp;",
+            ];
             *tail = T[sel.below(T.len())].to_vec();
             return Some(format!("trailing data {:?}", String::from_utf8_lossy(tail)));
         }
